@@ -99,8 +99,11 @@ class Code3(Code2):
             while offset_diff >= 256:
                 co_lnotab += bytearray([255, 0])
                 offset_diff -= 255
+            # The address increment goes into the first entry; the rest of
+            # the line increment follows in (0, n) entries.
             while line_diff >= 256:
-                co_lnotab += bytearray([0, 255])
+                co_lnotab += bytearray([offset_diff, 255])
+                offset_diff = 0
                 line_diff -= 255
             if 0 <= line_diff <= 256:
                 # FIXME: should warn about dropping off a line number
